@@ -85,6 +85,18 @@ class SsProxy:
     def __getattr__(self, k):
         return getattr(self._ss, k)
 
+    def gaussian_kde(self, *a, **k):
+        """numpy-2 shim (like numpy.Inf): `logpdf_y[j] = kernel.logpdf(y)` stores a 1-element array into a scalar
+        slot, which numpy >= 2.4 refuses; hand back the element."""
+        kde = self._ss.gaussian_kde(*a, **k)
+        real = kde.logpdf
+
+        def logpdf(x):
+            v = real(x)
+            return float(v[0]) if getattr(v, 'shape', None) == (1,) else v
+        kde.logpdf = logpdf
+        return kde
+
     def _logpdf(self, x, mean=None, cov=None):
         self.calls.append((np.array(x, dtype=float), np.array(mean, dtype=float), np.array(cov, dtype=float)))
         return self._ss.multivariate_normal.logpdf(x, mean=mean, cov=cov)
@@ -387,7 +399,7 @@ class C20(PropCheck):
         r = self.rng
         mode = r.choice(['std', 'std', 'whiten', 'warton', 'whiten+warton', 'go', 'go', 'go_far', 'mis_mean', 'mis_var', 'semi',
                          'semi_warton'])
-        d = r.choice([1, 2, 3, 4, 6]) if 'whiten' not in mode else r.choice([2, 3, 4, 6])
+        d = r.choice([1, 2, 3, 4, 6])
         n = r.randint(d + 4, d + 60)
         nr = np.random.RandomState(r.randrange(2 ** 31))
         X = nr.randn(n, d) @ (np.eye(d) + 0.5 * nr.randn(d, d)) + 3 * nr.randn(d)
@@ -543,25 +555,28 @@ class C20(PropCheck):
         y = np.array(case['y'], dtype=float)
         yo = y.reshape(1, -1) if case.get('obs_2d') else y
         mode = case['mode']
-        if mode in ('std', 'whiten', 'warton', 'whiten+warton'):
-            kw = {}
-            if 'W' in case:
-                kw['whitening'] = np.array(case['W'])
-            if 'penalty' in case:
-                kw.update(shrinkage='warton', penalty=case['penalty'])
-            v = pm.gaussian_syn_likelihood(X, yo, **kw)
-        elif mode in ('go', 'go_far'):
-            v = pm.gaussian_syn_likelihood_ghurye_olkin(X, yo)
-        elif mode == 'mis_mean':
-            v = pm.syn_likelihood_misspec(X, yo, np.array(case['gamma']), 'mean')
-        elif mode == 'mis_var':
-            v = pm.syn_likelihood_misspec(X, yo, np.array(case['gamma']), 'variance')
-        elif mode == 'semi':
-            v = pm.semi_param_kernel_estimate(X, yo)
-        elif mode == 'semi_warton':
-            v = pm.semi_param_kernel_estimate(X, yo, shrinkage='warton', penalty=case['penalty'])
-        else:
-            raise ValueError(mode)
+        try:
+            if mode in ('std', 'whiten', 'warton', 'whiten+warton'):
+                kw = {}
+                if 'W' in case:
+                    kw['whitening'] = np.array(case['W'])
+                if 'penalty' in case:
+                    kw.update(shrinkage='warton', penalty=case['penalty'])
+                v = pm.gaussian_syn_likelihood(X, yo, **kw)
+            elif mode in ('go', 'go_far'):
+                v = pm.gaussian_syn_likelihood_ghurye_olkin(X, yo)
+            elif mode == 'mis_mean':
+                v = pm.syn_likelihood_misspec(X, yo, np.array(case['gamma']), 'mean')
+            elif mode == 'mis_var':
+                v = pm.syn_likelihood_misspec(X, yo, np.array(case['gamma']), 'variance')
+            elif mode == 'semi':
+                v, _ = self._lik_call(pm.semi_param_kernel_estimate, X, yo)
+            elif mode == 'semi_warton':
+                v, _ = self._lik_call(pm.semi_param_kernel_estimate, X, yo, shrinkage='warton', penalty=case['penalty'])
+            else:
+                raise ValueError(mode)
+        except Exception as e:      # a likelihood that raises has no value: reported by py_val
+            return dict(loglik=None, raised='%s: %s' % (type(e).__name__, e))
         return dict(loglik=float(np.asarray(v).reshape(-1)[0]))
 
     # -- python-side clauses ---------------------------------------------------------------------------
@@ -687,6 +702,10 @@ class C20(PropCheck):
 
     def py_val(self, case, out):
         want = self.spec_val(case)
+        if out['loglik'] is None:
+            return [('likelihood_formula[%s]' % case['mode'],
+                     '%s, n=%d, d=%d: raised %s, published formula gives %r' % (case['mode'], len(case['X']), len(case['y']),
+                                                                               out['raised'], want))]
         if not self._close(out['loglik'], want, 1e-8):
             d = len(case['y'])
             return [('likelihood_formula[%s]' % case['mode'],
@@ -694,7 +713,9 @@ class C20(PropCheck):
         return []
 
     def classify(self, case, out, clause):
-        if case['kind'] == 'val' and case['mode'] in ('go', 'go_far') and isinstance(out, dict) and 'loglik' in out:
+        if case['kind'] == 'val' and isinstance(out, dict) and out.get('loglik', 0) is None and len(case['y']) == 1:
+            return 'd1-raises-' + {'semi_warton': 'semi', 'whiten+warton': 'whiten'}.get(case['mode'], case['mode'])
+        if case['kind'] == 'val' and case['mode'] in ('go', 'go_far') and isinstance(out, dict) and out.get('loglik') is not None:
             d = len(case['y'])
             want = self.spec_val(case)
             if d == 1 and out['loglik'] == -INF and want > -INF:
